@@ -20,18 +20,20 @@ from . import common, gencalls
 
 
 # ------------------------------------------------------------------ call specifications (picklable)
-def spec_of_call(c, rng, graph=False, backend=None, blocks=(), kwmode="plain", argmode="plain"):
+def spec_of_call(c, rng, graph=False, backend=None, blocks=(), kwmode="plain", argmode="plain", closed_inner=(), fkind=None, fpos=None):
     args = []
-    for a in c.arrays:
+    for i, a in enumerate(c.arrays):
         a = np.asarray(a)
-        if argmode == "factory" and rng.random() < 0.5:
+        if fkind is not None and i == fpos:
+            args.append(("factory_sig", a.tolist(), str(a.dtype), fkind))      # same Python type, different signatures
+        elif argmode == "factory" and rng.random() < 0.5:
             args.append(("factory", a.tolist(), str(a.dtype)))
         elif a.ndim == 0 and argmode == "scalar":
             args.append(("scalar", a.item()))
         else:
             args.append(("arr", a.tolist(), str(a.dtype)))
     kw = {}
-    sizes = c.all_axes() if argmode == "factory" else c.size_kwargs()
+    sizes = c.all_axes() if (argmode == "factory" or fkind is not None) else c.size_kwargs()
     for k, v in sizes.items():
         if kwmode == "float":
             kw[k] = ("float", float(v))
@@ -43,7 +45,24 @@ def spec_of_call(c, rng, graph=False, backend=None, blocks=(), kwmode="plain", a
             kw[k] = ("int", int(v))
     for k, v in c.extra_kwargs.items():
         kw[k] = ("tuple", list(v)) if isinstance(v, tuple) else ("int", int(v))
-    return {"fn": c.op, "desc": c.desc, "args": args, "kwargs": kw, "graph": graph, "backend": backend, "blocks": list(blocks)}
+    return {"fn": c.op, "desc": c.desc, "args": args, "kwargs": kw, "graph": graph, "backend": backend, "blocks": list(blocks),
+            "closed_inner": list(closed_inner)}
+
+
+def make_factory(kind, data):
+    if kind == "plain":
+        def f(shape):
+            return np.array(data)
+    elif kind == "named":
+        def f(shape, name="none", arg_index=-5):
+            return np.array(data) + np.asarray(arg_index + 5 + len(name)).astype(data.dtype)
+    elif kind == "kwargs":
+        def f(shape, **kwargs):
+            return np.array(data) + np.asarray(len(kwargs)).astype(data.dtype)
+    else:
+        def f(shape, signature=None):
+            return np.array(data) + np.asarray(0 if signature is None else 2).astype(data.dtype)
+    return f
 
 
 def build(spec):
@@ -53,6 +72,8 @@ def build(spec):
         if a[0] == "scalar":
             return a[1]
         data = np.array(a[1], dtype=a[2])
+        if a[0] == "factory_sig":
+            return make_factory(a[3], data)
         return lambda shape: np.array(data)
 
     def val(v):
@@ -90,6 +111,11 @@ def execute(spec):
         for b in blocks:
             b.__enter__()
         try:
+            inner = [einx.backend.get(b) for b in spec.get("closed_inner", [])]     # blocks opened and closed again before the call
+            for b in inner:
+                b.__enter__()
+            for b in reversed(inner):
+                b.__exit__(None, None, None)
             r = fn(spec["desc"], *args, **kw)
         finally:
             for b in reversed(blocks):
@@ -185,6 +211,13 @@ def gen_history(rng):
         variants.append(spec_of_call(c, rng, argmode=rng.choice(["factory", "scalar"])))
         variants.append(spec_of_call(c, rng, backend=rng.choice(["numpy", "numpy.numpylike", "numpy.einsum"])))
         variants.append(spec_of_call(c, rng, blocks=rng.choice([["numpy.numpylike"], ["numpy", "numpy.einsum"], ["numpy.numpylike", "numpy"]])))
+        outer = rng.choice([["numpy", "numpy.einsum"], ["numpy.numpylike", "numpy"], ["numpy.einsum", "numpy.numpylike"], ["numpy.einsum"]])
+        variants.append(spec_of_call(c, rng, graph=rng.random() < 0.7, blocks=outer, closed_inner=[rng.choice(outer + ["numpy"])]))
+        cands = [i for i, a in enumerate(c.arrays) if np.asarray(a).dtype.kind in "if" and (i > 0 or c.family != "update_at")]
+        if cands and c.family not in ("get_at", "update_at"):
+            i = rng.choice(cands)
+            for kind in rng.sample(["plain", "named", "kwargs", "sig"], 2):
+                variants.append(spec_of_call(c, rng, fkind=kind, fpos=i))
         variants.append(corrupt(spec_of_call(c, rng), rng))
         if c.family != "update_at":
             variants.append(solve_spec(c, rng))
@@ -213,9 +246,14 @@ def run(ctx):
     n = 22 if ctx.tier == "quick" else 700
     hs = [gen_history(ctx.rng)[: (14 if ctx.tier == "quick" else 30)] for _ in range(n)]
     keys = {}
+
+    def alone(sp):
+        # the reference for a call is the call itself inside its open with-blocks; blocks that were opened and closed again
+        # before it are history and must not matter
+        return {k: v for k, v in sp.items() if k != "closed_inner"}
     for h in hs:
         for sp in h:
-            keys.setdefault(json.dumps(sp, sort_keys=True), sp)
+            keys.setdefault(json.dumps(alone(sp), sort_keys=True), alone(sp))
     # forked children that run their first einx call are page-fault bound and do not scale over cores here: two workers only
     klist = list(keys)
     cold = dict(zip(klist, common.pmap(_cold, [keys[k] for k in klist], procs=2)))
@@ -228,7 +266,7 @@ def run(ctx):
             ctx.report({"kind": "history_process_crashed"}, {"history": h[:3]})
             continue
         for k, sp in enumerate(h):
-            c = cold[json.dumps(sp, sort_keys=True)]
+            c = cold[json.dumps(alone(sp), sort_keys=True)]
             o = w[k][0] if w[k][0] != "exc" else w[k][1]
             outcome_hist[o] = outcome_hist.get(o, 0) + 1
             if c != w[k]:
@@ -257,7 +295,7 @@ def replay(ctx, path):
     import sympy  # noqa: F401
     h = data["history"] + [data["call"]]
     warm = in_child(run_history_child, h)
-    cold = in_child(execute, data["call"])
+    cold = in_child(execute, {k: v for k, v in data["call"].items() if k != "closed_inner"})
     print("call:", json.dumps(data["call"])[:800])
     print("after history:", warm[-1], " alone:", cold)
     if warm[-1] != cold:
